@@ -186,6 +186,10 @@ pub struct Ev {
     pub text: String,
 }
 
+/// Rules whose verdict does not depend on the order in which the plugin handled two events
+/// delivered at the same instant (they read node ground truth, or the answer alone).
+pub const FUSED_RULES: [&str; 18] = ["R01a", "R01b", "R01c", "R02", "R03d", "R05", "R06a", "R06b", "R06c", "R06d", "R08a", "R08b", "R08c", "R10", "R12b", "R13a", "R13d", "R20a"];
+
 #[derive(Default, Clone, Debug)]
 pub struct Stats {
     pub evals: BTreeMap<&'static str, u64>,
@@ -226,6 +230,13 @@ pub struct World {
     pub faults_done: u32,
     pub crashes_done: u32,
     pub stall_pct: u64,
+    /// per cent of trampoline deliveries that are handled at the same instant as a second
+    /// event, the delivery task being suspended at one of its first awaits
+    pub fuse_pct: u64,
+    /// a same-hash pair was handled concurrently: the order-dependent part of the reference
+    /// model is ambiguous from here on, only order-independent rules are judged
+    pub fused: bool,
+    pub suppressed: u64,
     /// probe phase: the environment is cooperative (no faults, pay succeeds)
     pub cooperative: bool,
     /// age (seconds) fabricated into stored Pending records at the last restart (R11d)
@@ -301,6 +312,11 @@ impl World {
     }
 
     pub fn violate(&mut self, property: &'static str, rule: &'static str, signature: String, detail: String) {
+        if self.fused && !FUSED_RULES.contains(&rule) {
+            self.suppressed += 1;
+            self.ev(|| format!("(not judged after a concurrent same-hash pair: {rule} {signature})"));
+            return;
+        }
         let step = self.step;
         self.ev(|| format!("VIOLATION {rule} {signature}: {detail}"));
         if self.violations.len() < 32 && !self.violations.iter().any(|v| v.signature == signature) {
